@@ -162,3 +162,15 @@ PROPS["C04"] = {
     "outside": "sequences of several client operations; concurrent clients; membership changes during the operation; the link pump (30 lines) mirrors handle_client / start_replication instead of running them over a socket model",
     "assumptions": ["environment shims", "links are reliable FIFO channels"],
 }
+
+PROPS["C14"] = {
+    "level": "model_checking",
+    "harnesses": [
+        {"name": "c14_burst_2nodes", "fn": "c14_burst", "params": {"quick": {"secondaries": 1, "orders": 0}, "thorough": {"secondaries": 1, "orders": 1}}},
+        {"name": "c14_burst_3nodes", "fn": "c14_burst", "params": {"quick": {"secondaries": 2, "orders": 0, "budget": 120}}},
+    ],
+    "bounds": {"quick": "clusters of 2 and 3 nodes (arbiter-strategy database d with key k, common replicated history), an arbiter session at a solver-chosen node or nowhere, then ONE of 14 client commands at a solver-chosen node; messages crossing links counted until quiescence with a step budget of 80 / 120 (far above the bound 1 + 2 per secondary); one fair delivery order",
+               "thorough": "2 nodes under all FIFO-respecting delivery orders"},
+    "outside": "commands with symbolic arguments (the argument values do not change who sends what); membership changes",
+    "assumptions": ["environment shims", "the link pump mirrors handle_client / start_replication"],
+}
